@@ -261,7 +261,59 @@ def xkind_of_message(msg):
     return Con("OtherMessage", msg[:60])
 
 
+_LATE = {"done": False, "bad": None}
+
+
+def probe_late_defined_class():
+    """A class name that did not exist when a text naming it was first rejected must be accepted once the class exists
+    (every string of the grammar whose class names exist is accepted: acceptance may not be remembered per name).
+    Runs once per worker process; returns the violated clause or None."""
+    if _LATE["done"]:
+        return _LATE["bad"]
+    _LATE["done"] = True
+    import os
+    import sys
+    import types
+
+    from pyoak.match.error import ASTXpathDefinitionError
+    from pyoak.match.pattern import validate_pattern
+    from pyoak.match.xpath import ASTXpath
+    name = f"VerifLate{os.getpid()}"
+    bad = None
+    try:
+        ASTXpath("//" + name)
+        bad = "unknown-class-accepted"
+    except ASTXpathDefinitionError:
+        pass
+    ok0, _ = validate_pattern(f"({name})")
+    if ok0:
+        bad = "unknown-class-accepted"
+    m = types.ModuleType("verif_c17_late")
+    sys.modules[m.__name__] = m
+    exec(compile("from dataclasses import dataclass\nfrom pyoak.node import ASTNode\n"
+                 f"@dataclass(frozen=True)\nclass {name}(ASTNode):\n    v: int = 0\n", m.__name__, "exec", dont_inherit=True), m.__dict__)
+    inst = getattr(m, name)()
+    try:
+        xp = ASTXpath("//" + name)
+        if not xp.match(inst, inst):
+            bad = bad or "late-defined-class-does-not-match"
+    except ASTXpathDefinitionError:
+        bad = bad or "late-defined-class-still-rejected(xpath)"
+    ok1, _ = validate_pattern(f"({name})")
+    if not ok1:
+        bad = bad or "late-defined-class-still-rejected(pattern)"
+    _LATE["bad"] = bad
+    return bad
+
+
 def impl(t, case):
+    bad = probe_late_defined_class()
+    if bad:
+        return Con("ProbeViolation", bad)
+    return impl_case(t, case)
+
+
+def impl_case(t, case):
     import pyoak.match.xpath as X
     from pyoak import config
     from pyoak.match import pattern as P
@@ -349,6 +401,8 @@ CLAUSES = ["validate_pattern", "from_pattern", "from_pattern(cached)", "MultiPat
 def compare(inp, impl_obs, model_obs):
     if isinstance(impl_obs, Con) and impl_obs.name == "InconsistentCase":
         return []
+    if isinstance(impl_obs, Con) and impl_obs.name == "ProbeViolation":
+        return ["probe:" + impl_obs.args[0].decode()]
     impl_obs, model_obs = canon(impl_obs), canon(model_obs)
     if isinstance(model_obs, Con) and model_obs.name == "PatRes" and isinstance(impl_obs, Con) and impl_obs.name == "PatRes":
         diffs = [c for c, x, y in zip(CLAUSES[:4], impl_obs.args, model_obs.args) if x != y]
